@@ -78,10 +78,11 @@ structure SealRec where
   out : List UInt8
 deriving DecidableEq, Repr
 
-/-- one direction of a channel: the seal side and the open side hold the same key; each side has
-its own label (they agree unless the channel was set up inconsistently) -/
+/-- one direction of a channel: the seal side and the open side hold the same key, which no
+other channel has — the key *is* the channel's index in `World.chans` (that distinct channels get
+distinct keys is C38's subject); each side has its own label (they agree unless the channel was
+set up inconsistently) -/
 structure Chan where
-  key : Nat
   sealLabel : Nat
   openLabel : Nat
   /-- next sequence number of the seal context -/
@@ -107,6 +108,16 @@ def aeadOpen (log : List SealRec) (key nonce version label : Nat) (c : List UInt
 def World.setChan (w : World) (c : Nat) (ch : Chan) : World :=
   { w with chans := w.chans.set c ch }
 
+/-- `AranyaState::add` on both sides with a fresh key; the seal context starts at `start` -/
+def World.addChan (w : World) (sealLabel openLabel start : Nat) : World :=
+  { w with chans := w.chans ++ [{ sealLabel, openLabel, seq := start }] }
+
+/-- `AranyaState::remove` on both sides -/
+def World.rmChan (w : World) (c : Nat) : World :=
+  match w.chans[c]? with
+  | some ch => w.setChan c { ch with removed := true }
+  | none => w
+
 /-- `AfcState::seal`/`open` look-up: `none` = `Error::NotFound` (removed channel) -/
 def World.chan (w : World) (c : Nat) : Option Chan :=
   match w.chans[c]? with
@@ -123,7 +134,7 @@ def doSeal (w : World) (c : Nat) (pt oracle : List UInt8) :
   | some ch =>
     if ch.seq ≥ seqMax then .error .keyExpired
     else
-      let r : SealRec := ⟨ch.key, ch.seq, versionV1, ch.sealLabel, pt, oracle⟩
+      let r : SealRec := ⟨c, ch.seq, versionV1, ch.sealLabel, pt, oracle⟩
       .ok (ch.seq, { (w.setChan c { ch with seq := ch.seq + 1 }) with log := r :: w.log })
 
 /-- `Client::seal`: result, the new `dst`, the new world -/
@@ -163,7 +174,7 @@ def doOpen (w : World) (c : Nat) (seq : Nat) (ct : List UInt8) : Except Err (Nat
   | some ch =>
     if seq ≥ seqMax then .error .keyExpired
     else
-      match aeadOpen w.log ch.key seq versionV1 ch.openLabel ct with
+      match aeadOpen w.log c seq versionV1 ch.openLabel ct with
       | some pt => .ok (ch.openLabel, pt)
       | none => .error .authentication
 
